@@ -26,11 +26,11 @@ func init() {
 
 	register(&Rule{ID: "C09.a", Doc: "terminator table and append-iff-missing", Floor: 5, Run: c09a})
 	register(&Rule{ID: "C09.b", Doc: "recorded / returned text is terminator-formatted with its own string type", Floor: 6, Run: c09b})
-	register(&Rule{ID: "C09.c", Doc: "string type carried to ast.Text and to the directive", Floor: 3, Run: c09c})
+	register(&Rule{ID: "C09.c", Doc: "string type carried to ast.Text and to the directive", Floor: 4, Run: c09c})
 	register(&Rule{ID: "C09.d", Doc: "text poryswitch: text and type maps read with the same key sequence", Floor: 1, Run: c09d})
 	register(&Rule{ID: "C09.e", Doc: "one directive per line, full range, agreeing line separators", Floor: 4, Run: c09e})
 	register(&Rule{ID: "C10.a", Doc: "argument loop: one action and one advance per token; depth-counted exit; final flush", Floor: 8, Run: c10a})
-	register(&Rule{ID: "C10.b", Doc: "command rendering from constant formats", Floor: 4, Run: c10b})
+	register(&Rule{ID: "C10.b", Doc: "command rendering from constant formats", Floor: 34, Run: c10b})
 	register(&Rule{ID: "C10.c", Doc: "chunk statements rendered in order, once each", Floor: 2, Run: c10c})
 	register(&Rule{ID: "C10.d", Doc: "command name is the token literal (no constant substitution)", Floor: 1, Run: c10d})
 	register(&Rule{ID: "C10.e", Doc: "block parsers keep every statement: each iteration parses one statement and appends its result", Floor: 6, Run: c10e})
